@@ -165,14 +165,14 @@ func (c *Check) gochannelRoles(id string) *GCRoles {
 	}
 	// fan-out function: called from Publish, spawns goroutines that reach Deliver
 	for _, cl := range CallsIn(r.Publish) {
-		cal := cl.Common().StaticCallee()
+		cal := CalleeFn(cl.Common())
 		if cal == nil || cal.Pkg != r.Publish.Pkg || cal.Signature.Recv() == nil {
 			continue
 		}
 		reaches := false
 		for _, f := range WithAnon(cal) {
 			for _, c2 := range CallsIn(f) {
-				if c2.Common().StaticCallee() == r.Deliver {
+				if CalleeFn(c2.Common()) == r.Deliver {
 					reaches = true
 				}
 			}
@@ -191,10 +191,10 @@ func (c *Check) gochannelRoles(id string) *GCRoles {
 	// closures of Subscribe
 	for _, f := range r.Subscribe.AnonFuncs {
 		for _, cl := range CallsIn(f) {
-			if cl.Common().StaticCallee() == r.SubClose {
+			if CalleeFn(cl.Common()) == r.SubClose {
 				r.Teardown = f
 			}
-			if r.AddSub != nil && cl.Common().StaticCallee() == r.AddSub {
+			if r.AddSub != nil && CalleeFn(cl.Common()) == r.AddSub {
 				r.Replay = f
 			}
 		}
